@@ -2136,8 +2136,12 @@ class Fn(
         **kwargs,
     ) -> Tr[dict[str, Any], R]:
         handler_stack.append(Simulate(jnp.array(0.0), {}, self))
-        r = self.source.value(*args, **kwargs)
-        handler = handler_stack.pop()
+        try:
+            r = self.source.value(*args, **kwargs)
+        finally:
+            # Always unwind: an exception in the body must not leave this
+            # handler on the global stack for later, unrelated calls.
+            handler = handler_stack.pop()
         assert isinstance(handler, Simulate)
         score, trace_map = handler.score, handler.trace_map
         return Tr(self, (args, kwargs), trace_map, r, score)
@@ -2153,8 +2157,12 @@ class Fn(
             return tr, jnp.array(0.0)
         else:
             handler_stack.append(Generate(x, jnp.array(0.0), jnp.array(0.0), {}, self))
-            r = self.source.value(*args, **kwargs)
-            handler = handler_stack.pop()
+            try:
+                r = self.source.value(*args, **kwargs)
+            finally:
+                # Always unwind: an exception in the body must not leave this
+                # handler on the global stack for later, unrelated calls.
+                handler = handler_stack.pop()
             assert isinstance(handler, Generate)
             score, weight, trace_map = handler.score, handler.weight, handler.trace_map
             return Tr(self, (args, kwargs), trace_map, r, score), weight
@@ -2166,8 +2174,12 @@ class Fn(
         **kwargs,
     ) -> tuple[Density, R]:
         handler_stack.append(Assess(x, jnp.array(0.0), set(), self))
-        r = self.source.value(*args, **kwargs)
-        handler = handler_stack.pop()
+        try:
+            r = self.source.value(*args, **kwargs)
+        finally:
+            # Always unwind: an exception in the body must not leave this
+            # handler on the global stack for later, unrelated calls.
+            handler = handler_stack.pop()
         assert isinstance(handler, Assess)
         logp = handler.logp
         return logp, r
@@ -2183,8 +2195,12 @@ class Fn(
         handler_stack.append(
             Update(tr, x_, {}, {}, jnp.array(0.0), jnp.array(0.0), self)
         )
-        r = self.source.value(*args, **kwargs)
-        handler = handler_stack.pop()
+        try:
+            r = self.source.value(*args, **kwargs)
+        finally:
+            # Always unwind: an exception in the body must not leave this
+            # handler on the global stack for later, unrelated calls.
+            handler = handler_stack.pop()
         assert isinstance(handler, Update)
         trace_map, score, w, discard = (
             handler.trace_map,
@@ -2204,8 +2220,12 @@ class Fn(
         handler_stack.append(
             Regenerate(tr, s, {}, {}, jnp.array(0.0), jnp.array(0.0), self)
         )
-        r = self.source.value(*args, **kwargs)
-        handler = handler_stack.pop()
+        try:
+            r = self.source.value(*args, **kwargs)
+        finally:
+            # Always unwind: an exception in the body must not leave this
+            # handler on the global stack for later, unrelated calls.
+            handler = handler_stack.pop()
         assert isinstance(handler, Regenerate)
         trace_map, score, w, discard = (
             handler.trace_map,
